@@ -430,6 +430,10 @@ class XsiType(Family):
   <xs:unique name="u2"><xs:selector xpath=".//t:y"/><xs:field xpath="@v"/></xs:unique>
   <xs:unique name="u2z"><xs:selector xpath=".//t:z"/><xs:field xpath="@v"/></xs:unique>
  </xs:element>
+ <xs:element name="root5">
+  <xs:complexType><xs:sequence><xs:element ref="t:x" maxOccurs="unbounded"/></xs:sequence></xs:complexType>
+  <xs:unique name="u5"><xs:selector xpath=".//t:y|.//t:z"/><xs:field xpath="@v"/></xs:unique>
+ </xs:element>
  <xs:element name="root3">
   <xs:complexType><xs:sequence>
     <xs:element name="w" type="t:Base" block="restriction" maxOccurs="unbounded"/>
@@ -499,6 +503,14 @@ class XsiType(Family):
             Doc('xt-r1-y-without-type', D('root1', [{'y': [1]}]), 'fault:structure'),
             Doc('xt-r1-notderived', D('root1', [{'type': 't:Other'}]), 'fault:not-derived'),
             Doc('xt-r2-notderived', D('root2', [{'a': 1}, {'type': 't:Other'}]), 'fault:not-derived'),
+        ]
+        # one identity whose selector meets TWO new elements through a single xsi:type (E adds y and z to Base)
+        out += [
+            Doc('xt-r5-E', D('root5', [{'type': 't:E', 'y': [1, 2], 'z': [3]}, {'a': 1}])),
+            Doc('xt-r5-E-dupy', D('root5', [{'type': 't:E', 'y': [5], 'z': [6]}, {'type': 't:E', 'y': [5]}]), 'fault:dup-unique'),
+            Doc('xt-r5-E-dupz', D('root5', [{'type': 't:E', 'z': [6, 6]}]), 'fault:dup-unique'),
+            Doc('xt-r5-E-dupyz', D('root5', [{'type': 't:E', 'y': [4], 'z': [4]}]), 'fault:dup-unique'),
+            Doc('xt-r5-D-dupy', D('root5', [{'type': 't:D', 'y': [8, 8]}]), 'fault:dup-unique'),
         ]
         G = self._grpdoc
         out += [
@@ -1295,6 +1307,101 @@ class Big(Family):
         ]
 
 
+# ---------------------------------------------------------------------------
+class OnDemand(Family):
+    """
+    Namespaces that are loaded while a document is being validated: wildcard-matched content of
+    well-known namespaces the library only has a fallback location for. The schema's uri_mapper
+    relocates three of them to the pool's simulated peer (one document that validates foreign
+    content, one that cannot be built, one location that does not exist); XLink keeps its packaged
+    schema.
+    """
+    name = 'ondemand'
+    paths = ('box',)
+    assemblies = ('canonical', 'build_false')
+    PEER = 'http://sim.test/od/'
+    EXT = 'http://www.w3.org/2001/04/xmlenc#'           # -> ext.xsd on the peer
+    BROKEN = 'http://www.w3.org/2009/xmldsig11#'        # -> broken.xsd on the peer (cannot be built)
+    GONE = 'http://www.w3.org/2009/xmlenc11#'           # -> a page the peer does not have
+    XLINK = 'http://www.w3.org/1999/xlink'
+
+    def sources(self, version):
+        return {'od.xsd': f"""<xs:schema {XS} targetNamespace="urn:od" xmlns:o="urn:od" elementFormDefault="qualified">
+ <xs:element name="root">
+  <xs:complexType><xs:sequence>
+    <xs:element name="item" type="xs:int" minOccurs="0" maxOccurs="unbounded"/>
+    <xs:element name="box" minOccurs="0" maxOccurs="unbounded"><xs:complexType><xs:sequence>
+      <xs:any namespace="##other" processContents="strict" minOccurs="0" maxOccurs="unbounded"/>
+    </xs:sequence><xs:anyAttribute namespace="##other" processContents="strict"/></xs:complexType></xs:element>
+    <xs:any namespace="##other" processContents="lax" minOccurs="0" maxOccurs="unbounded"/>
+  </xs:sequence><xs:anyAttribute namespace="##other" processContents="lax"/></xs:complexType>
+ </xs:element>
+</xs:schema>"""}
+
+    def peer_pages(self):
+        return {
+            self.PEER + 'ext.xsd': f"""<xs:schema {XS} targetNamespace="{self.EXT}" xmlns:e="{self.EXT}"
+  elementFormDefault="qualified">
+ <xs:element name="thing"><xs:complexType><xs:sequence>
+   <xs:element name="n" type="xs:int" maxOccurs="unbounded"/>
+  </xs:sequence><xs:attribute name="code" type="e:Code"/></xs:complexType>
+  <xs:unique name="un"><xs:selector xpath="e:n"/><xs:field xpath="."/></xs:unique>
+ </xs:element>
+ <xs:element name="leaf" type="xs:date"/>
+ <xs:attribute name="flag" type="xs:boolean"/>
+ <xs:simpleType name="Code"><xs:restriction base="xs:string"><xs:pattern value="[A-Z]{{2}}[0-9]"/></xs:restriction></xs:simpleType>
+</xs:schema>""".encode(),
+            self.PEER + 'broken.xsd': f"""<xs:schema {XS} targetNamespace="{self.BROKEN}" xmlns:b="{self.BROKEN}">
+ <xs:element name="e" type="b:Missing"/>
+ <xs:element name="f" type="xs:int"/>
+</xs:schema>""".encode(),
+        }
+
+    def uri_mapper(self):
+        from xmlschema.locations import FALLBACK_LOCATIONS
+        return {FALLBACK_LOCATIONS[self.EXT]: self.PEER + 'ext.xsd',
+                FALLBACK_LOCATIONS[self.BROKEN]: self.PEER + 'broken.xsd',
+                FALLBACK_LOCATIONS[self.GONE]: self.PEER + 'gone.xsd'}
+
+    def assemble(self, directory, cls, build=True, order=None):
+        import os
+        return cls(os.path.join(directory, 'od.xsd'), build=build, uri_mapper=self.uri_mapper())
+
+    def _doc(self, body='', rootattr='', items=(1,)):
+        s = _decl() + (f'<o:root xmlns:o="urn:od" xmlns:e="{self.EXT}" xmlns:b="{self.BROKEN}" xmlns:g="{self.GONE}" '
+                       f'xmlns:xlink="{self.XLINK}"{rootattr}>\n')
+        s += ''.join(f' <o:item>{i}</o:item>\n' for i in items)
+        return s + body + '</o:root>\n'
+
+    def docs(self, rng):
+        D = self._doc
+        thing = '<e:thing code="AB1"><e:n>1</e:n><e:n>2</e:n></e:thing>'
+        return [
+            Doc('od-valid-plain', D()),
+            Doc('od-valid-plain-many', D(items=range(8))),
+            Doc('od-plain-baditem', D(items=('x',)), 'fault:lexical'),
+            Doc('od-valid-ext-lax', D(f' {thing}\n <e:leaf>2020-02-02</e:leaf>\n')),
+            Doc('od-valid-ext-strict', D(f' <o:box e:flag="true">{thing}</o:box>\n')),
+            Doc('od-ext-lax-badcode', D(' <e:thing code="ab"><e:n>1</e:n></e:thing>\n'), 'fault:lexical'),
+            Doc('od-ext-lax-dup', D(' <e:thing><e:n>7</e:n><e:n>7</e:n></e:thing>\n'), 'fault:identity'),
+            Doc('od-ext-strict-badleaf', D(' <o:box><e:leaf>yesterday</e:leaf></o:box>\n'), 'fault:lexical'),
+            Doc('od-ext-strict-unknown', D(' <o:box><e:nothing/></o:box>\n'), 'fault:wildcard'),
+            Doc('od-ext-badflag', D(rootattr=' e:flag="maybe"'), 'fault:lexical'),
+            Doc('od-ext-strict-badflag', D(' <o:box e:flag="2"/>\n'), 'fault:lexical'),
+            Doc('od-valid-broken-lax', D(' <b:f>not checked</b:f>\n <b:e/>\n')),
+            Doc('od-broken-strict', D(' <o:box><b:f>1</b:f></o:box>\n'), 'fault:wildcard'),
+            Doc('od-valid-gone-lax', D(' <g:x>1</g:x>\n', rootattr=' g:a="1"')),
+            Doc('od-gone-strict', D(' <o:box g:a="1"/>\n'), 'fault:wildcard'),
+            Doc('od-valid-xlink', D(' <o:box xlink:type="simple" xlink:href="http://x.test/"/>\n',
+                                    rootattr=' xlink:type="simple"')),
+            Doc('od-xlink-badtype', D(' <o:box xlink:type="bogus"/>\n'), 'fault:lexical'),
+            Doc('od-xlink-lax-badtype', D(rootattr=' xlink:type="bogus"'), 'fault:lexical'),
+            # the root itself belongs to an on-demand namespace: nothing matches it through a wildcard
+            Doc('od-root-ext', f'<e:thing xmlns:e="{self.EXT}" code="zz"><e:n>1</e:n></e:thing>', 'fault:root'),
+            Doc('od-valid-mixed-order', D(f' <o:box xlink:type="simple">{thing}</o:box>\n <g:x/>\n <b:f>z</b:f>\n {thing}\n')),
+        ]
+
+
 def double_fault(doc, rng, order='model-first'):
     """A model violation (unexpected child of the root) and a content error in another sibling, in either
     document order. Works on the one-root-child-per-line layout of the generated documents."""
@@ -1327,4 +1434,4 @@ def with_double_faults(docs, rng, n=4):
 
 
 FAMILIES = {f.name: f for f in (Ids(), Keys(), XsiType(), Subst(), Fixed(), Wild(), Ns(), Mixed(),
-                                Assert11(), Recur(), Multi(), Multi2(), Shadow(), IdFields(), Dtd(), Chameleon(), Big())}
+                                Assert11(), Recur(), Multi(), Multi2(), Shadow(), IdFields(), Dtd(), Chameleon(), Big(), OnDemand())}
